@@ -256,6 +256,9 @@ def extra_obligations(mods, tier, seed):
     out.append({"name": "C16/arms/getters-read-shadow-variables", "status": "discharged" if ok else "sat", "backend": "enum",
                 "where": "get_frequency/get_last_frequency/get_state are the shadow variables the fragments maintain", "time": 0.0,
                 "replay": {"cpp": cpp[-400:]}, "replay_confirmed": not ok})
+    from progs.concat import concat_obligations
+    out += concat_obligations("C16", {"Buzzer": ("bz = Buzzer(8)", ["bz.play_tone(440)", "bz.play_tone(330, 100)", "bz.stop()", "bz.beep(500, on_ms=20, off_ms=10, times=2)",
+                                                                      "bz.sweep(200, 400, duration_ms=100, steps=4)", "bz.melody('success')", "bz.beep(times=0)"])})
     # parser arms: a non-integer literal argument behaves like the same value in a variable (tone/delay trace on the firmware mock);
     # the fragment contracts above take the IR node as given, this ties the node to the source text
     import multiprocessing as mp
